@@ -39,6 +39,7 @@ def run(ctx, col, tier):
 
     from ..rules import stateless
     col.guard(stateless.check, ctx, col, "R-STATE", ("swcgeom.transforms.geometry", "swcgeom.transforms.base"))
+    col.guard(anchored, ctx, col)
     col.guard(shapes, ctx, col)
     col.guard(conj, ctx, col)
     col.guard(layout, ctx, col)
@@ -179,7 +180,7 @@ def conj(ctx, col):
     col.check(not stores, "R-CONJ", d.qualname, d.loc(stores[0]) if stores else d.loc(),
               "applying the transform leaves the transform object unchanged (the stored matrix is only read)", "",
               (f"`{norm_src(stores[0])[:80]}` overwrites the transform's own state in __call__: the next tree is transformed with a "
-               f"matrix already conjugated about the previous tree's root") if stores else "", stmt="self-store")
+               f"matrix already conjugated about the previous tree's root") if stores else "", stmt="self-store", definite=True)
     xyz_a = src.get("xyz")
     idx_a = src.get("idx")
     ok = idx_a is not None and norm_src(idx_a.value) == "np.nonzero(x.ndata[x.names.pid] == -1)[0][0].item()" \
@@ -199,7 +200,7 @@ def conj(ctx, col):
               f"product {kinds} with {conv} vectors",
               f"product is {' . '.join(kinds)}; with {conv} vectors the factor applied first is {first}, "
               f"so points are moved by +centre before the map and by -centre after it: the centre is not fixed "
-              f"(expected {' . '.join(want)})", f"factors {kinds} not recognised", stmt="conjugation")
+              f"(expected {' . '.join(want)})", f"factors {kinds} not recognised", stmt="conjugation", definite=True)
     if dflt is not None:
         ok = [norm_src(s) for s in dflt.body] == ["tm = self.tm"]
         col.check(ok, "R-CONJ", d.qualname, d.loc(dflt.body[0]), "origin mode uses the matrix unchanged", "",
@@ -279,11 +280,15 @@ def layout(ctx, col):
             for j in range(4):
                 got = cell_token(rows[i][j], env) if i < len(rows) and j < len(rows[i]) else "<missing>"
                 w = want[i][j]
-                if got.startswith("?"):
-                    col.unresolved("R-MATLAYOUT", d.qualname, d.loc(rows[i][j]), f"{b}[{i}][{j}]", got, stmt=f"{i},{j}")
+                import re as _re
+                pat = "|".join(_re.escape(p) for p in d.params) or "x^"
+                known = bool(_re.fullmatch(rf"-?(\d+(\.\d+)?|{pat}|(cos|sin)\(({pat})\))", got))
+                if got.startswith("?") or not known:
+                    col.unresolved("R-MATLAYOUT", d.qualname, d.loc(rows[i][j]), f"{b}[{i}][{j}]", f"entry `{got}` is not in the abstraction "
+                                   "{0, 1, +-parameter, +-cos(parameter), +-sin(parameter)}", stmt=f"{i},{j}")
                 else:
                     col.check(got == w, "R-MATLAYOUT", d.qualname, d.loc(rows[i][j]), f"{b}[{i}][{j}]", got,
-                              f"entry is {got}, the definition has {w}", stmt=f"{i},{j}")
+                              f"entry is {got}, the definition has {w}", stmt=f"{i},{j}", definite=True)
     # Rodrigues
     d = repo.get_def(f"{UT}.rotate3d")
     rows, env = literal_matrix(d, "N")
@@ -299,8 +304,12 @@ def layout(ctx, col):
         for i in range(3):
             for j in range(3):
                 got = cell_token(rows[i][j], {}) if i < len(rows) and j < len(rows[i]) else "<missing>"
-                col.check(got == want[i][j], "R-MATLAYOUT", d.qualname, d.loc(rows[i][j]), f"skew[{i}][{j}]", got,
-                          f"entry is {got}, the cross-product matrix has {want[i][j]}", stmt=f"N{i},{j}")
+                known = got in ("0", nx, ny, nz, f"-{nx}", f"-{ny}", f"-{nz}")
+                if not known:
+                    col.unresolved("R-MATLAYOUT", d.qualname, d.loc(rows[i][j]), f"skew[{i}][{j}]", f"entry `{got}` not in {{0, +-axis component}}", stmt=f"N{i},{j}")
+                else:
+                    col.check(got == want[i][j], "R-MATLAYOUT", d.qualname, d.loc(rows[i][j]), f"skew[{i}][{j}]", got,
+                              f"entry is {got}, the cross-product matrix has {want[i][j]}", stmt=f"N{i},{j}", definite=True)
     # formula: cos*I + (1-cos)*n n^T + sin*N   (three terms, each recognised)
     terms = []
 
@@ -395,3 +404,98 @@ def wiring(ctx, col):
         "xyzw" in src and norm_src(src["xyzw"].value) == "x.xyzw()"
     col.check(bool(ok), "R-WIRE", d.qualname, d.loc(), "TranslateOrigin translates by minus the root's coordinates (x,y,z in order)",
               norm_src(tm.value) if tm is not None else "", "translation is not by -(root x, y, z)", stmt="origin")
+
+
+def anchored(ctx, col):
+    """Statements that carry the clauses, matched three-way under one renaming per function."""
+    repo = ctx.repo
+    d = repo.get_def(f"{GEO}.AffineTransform.__call__")
+    col.text_group("R-CONJ", d.qualname, d, [
+        ("the centre is the root: the first node whose parent is -1 ...", ["idx = np.nonzero(x.ndata[x.names.pid] == -1)[0][0].item()"], "root-idx"),
+        ("... and its position", ["xyz = x.xyz()[idx]"], "centre"),
+        ("origin mode uses the matrix unchanged", ["tm = self.tm"], "origin"),
+        ("the (conjugated) matrix is applied to the input", ["return self.apply(x, tm)"], "applied"),
+    ], fixed=("x",))
+    a = repo.get_def(f"{GEO}.AffineTransform.apply")
+    col.text_group("R-APPLY", a.qualname, a, [
+        ("homogeneous row vectors times the transposed matrix, transposed back: rows of the result are x, y, z, w", ["xyzw = x.xyzw().dot(tm.T).T", "xyzw = np.dot(x.xyzw(), tm.T).T"], "product"),
+        ("perspective divide by the w row", ["xyzw /= xyzw[3]"], "divide"),
+        ("works on a copy", ["y = x.copy()"], "copy"),
+        ("x takes row 0", ["y.ndata[x.names.x] = xyzw[0]"], "x-row0"),
+        ("y takes row 1", ["y.ndata[x.names.y] = xyzw[1]"], "y-row1"),
+        ("z takes row 2", ["y.ndata[x.names.z] = xyzw[2]"], "z-row2"),
+        ("the copy is returned", ["return y"], "ret"),
+    ], fixed=("x", "tm"))
+    w = repo.get_def("swcgeom.core.swc.SWCLike.xyzw")
+    col.text_group("R-APPLY", w.qualname, w, [
+        ("homogeneous coordinates are (x, y, z, 1) per node", ["return np.stack([self.x(), self.y(), self.z(), w], axis=1)"], "xyzw"),
+        ("w = 1", ["w = np.ones_like(self.x())"], "w")])
+    x3 = repo.get_def("swcgeom.core.swc.SWCLike.xyz")
+    col.text_group("R-APPLY", x3.qualname, x3, [("xyz() is (x, y, z) per node", ["return np.stack([self.x(), self.y(), self.z()], axis=1)"], "xyz")])
+    table = {"Translate": "super().__init__(translate3d(tx, ty, tz), **kwargs)",
+             "Scale": "super().__init__(scale3d(sx, sy, sz), center=center, **kwargs)",
+             "Rotate": "super().__init__(rotate3d(n, theta), center=center, fmt=fmt, **kwargs)",
+             "RotateX": "super().__init__(rotate3d_x(theta), center=center, fmt=_any, **kwargs)",
+             "RotateY": "super().__init__(rotate3d_y(theta), center=center, fmt=_any, **kwargs)",
+             "RotateZ": "super().__init__(rotate3d_z(theta), center=center, fmt=_any, **kwargs)"}
+    for cls, form in table.items():
+        i = repo.get_def(f"{GEO}.{cls}.__init__")
+        alts = [form, form.replace(", fmt=_any", "").replace(", fmt=fmt", ""), form.replace("fmt=fmt", "fmt=_any")]
+        col.text_group("R-WIRE", f"{GEO}.{cls}", i, [(f"{cls} passes its own parameters to its own builder (and the centre mode on)", alts, "builder")],
+                       fixed=tuple(i.params) + ("translate3d", "scale3d", "rotate3d", "rotate3d_x", "rotate3d_y", "rotate3d_z", "kwargs", "center"))
+    t = repo.get_def(f"{GEO}.TranslateOrigin.transform")
+    col.text_group("R-WIRE", t.qualname, t, [
+        ("the root is the first node whose parent is -1 (not simply row 0)", ["pid = np.nonzero(x.ndata[x.names.pid] == -1)[0][0].item()"], "root"),
+        ("homogeneous coordinates of the input", ["xyzw = x.xyzw()"], "xyzw"),
+        ("translation by minus the root's coordinates, x, y, z in order", ["tm = translate3d(-xyzw[pid, 0], -xyzw[pid, 1], -xyzw[pid, 2])"], "origin"),
+        ("applied", ["return AffineTransform.apply(x, tm)"], "apply"),
+    ], fixed=("x", "translate3d", "AffineTransform"))
+    # the root's position must be looked up by the root marker: row 0 is the root only for some numberings
+    for q in (f"{GEO}.TranslateOrigin.transform", f"{GEO}.AffineTransform.__call__"):
+        dd = repo.get_def(q)
+        uses_marker = any(isinstance(c, ast.Compare) and "pid" in norm_src(c) and "-1" in norm_src(c) for c in own_nodes(dd))
+        row0 = [s for s in own_nodes(dd) if isinstance(s, ast.Subscript) and norm_src(s.value) in ("x.xyz()", "x.xyzw()") and norm_src(s.slice) == "0"]
+        if row0 and not uses_marker:
+            col.bad("R-WIRE", q, dd.loc(row0[0]), "the centre / origin is the root, found by its parent marker -1",
+                    f"`{norm_src(row0[0])}` takes row 0 as the root: a tree whose root is stored in another row is centred on the wrong node",
+                    stmt="root-row0", definite=True)
+
+
+    # every result of the general rotation builder depends on the DIRECTION of the axis: a return path on which
+    # the axis enters only through abs() / count_nonzero() / != 0 turns -n and +n into the same rotation
+    r3 = repo.get_def(f"{UT}.rotate3d")
+    axis_p = r3.params[0]
+    KILL = ("abs", "count_nonzero", "nonzero", "square", "argmax", "argmin")
+    assigns = [a for a in own_nodes(r3) if isinstance(a, ast.Assign)]
+    for ret in [x for x in own_nodes(r3) if isinstance(x, ast.Return) and x.value is not None]:
+        exprs = [ret.value]
+        seen = set()
+        frontier = {n.id for n in ast.walk(ret.value) if isinstance(n, ast.Name)}
+        while frontier:
+            nm = frontier.pop()
+            if nm in seen:
+                continue
+            seen.add(nm)
+            for a in assigns:
+                if a.lineno < ret.lineno and any(isinstance(t, ast.Name) and t.id == nm for tt in a.targets for t in ast.walk(tt)):
+                    exprs.append(a.value)
+                    frontier |= {n.id for n in ast.walk(a.value) if isinstance(n, ast.Name)}
+        occ = []
+        for e in exprs:
+            for node in ast.walk(e):
+                if isinstance(node, ast.Name) and node.id == axis_p:
+                    killed = False
+                    cur = repo.parent(node)
+                    while cur is not None and cur is not r3.node and not isinstance(cur, ast.stmt):
+                        if isinstance(cur, ast.Call) and (dotted(cur.func) or "").rsplit(".", 1)[-1] in KILL:
+                            killed = True
+                        if isinstance(cur, ast.Compare) and any(isinstance(c, ast.Constant) and c.value == 0 for c in [cur.left] + cur.comparators):
+                            killed = True
+                        cur = repo.parent(cur)
+                    occ.append(killed)
+        if occ and all(occ):
+            col.bad("R-MATLAYOUT", r3.qualname, r3.loc(ret), "every result depends on the direction of the axis",
+                    f"`{norm_src(ret)[:70]}` depends on the axis `{axis_p}` only through abs()/argmax()/count_nonzero(): a rotation about -n "
+                    f"is the same as about +n on this path (it should be the inverse)", stmt="axis-sign", definite=True)
+        elif occ:
+            col.ok("R-MATLAYOUT", r3.qualname, r3.loc(ret), "every result depends on the direction of the axis", stmt="axis-sign")
